@@ -335,7 +335,7 @@ package plugin
 //@ func NewPREF64
 //@   requires P1: secs(4) <= maxInterval && maxInterval <= secs(1800)
 //@   assigns new heap(plugin.PREF64), new heap(ndp.PREF64)
-//@   ensures E1 [C01]: result != nil && result.Inner != nil && result.Inner.Prefix == prefix
+//@   ensures E1 [C01]: result != nil && fresh(result) && result.Inner != nil && result.Inner.Prefix == prefix
 //@   ensures E2 [C01]: result.Inner.Lifetime == imin(secs(65528), ceilMul(3 * maxInterval, secs(8)))
 //@   ensures E3 [C03]: 0 <= result.Inner.Lifetime && result.Inner.Lifetime <= secs(65528) && result.Inner.Lifetime % secs(8) == 0
 //@   opt safety [C01]
